@@ -75,11 +75,24 @@ def run(chk):
     dis, _, _ = chk.differential("slots", lines, impl_of=cfg)
     sc = scan_cases(chk, tier)
     slines = [f"scan {impl} {p} {a} {b} {m}" for (p, a, b, m) in sc for impl in ("py", "cy")]
+    # windows whose ends lie inside slots (the result must be that of the window of whole slots containing them)
+    offs = [(0, 1800), (900, 0), (1234, 3599), (1, 1)]
+    for j, (p, a, b, m) in enumerate(sc):
+        if j % (5 if tier == "quick" else 3) == 0 and b <= len(p) - 2:
+            so, eo = offs[(j // 5) % len(offs)]
+            if a == b and so > eo:
+                continue                                  # an inverted window
+            slines += [f"scanw {impl} {p} {a} {so} {b} {eo} {m}" for impl in ("py", "cy")]
     dis2, _, _ = chk.differential("scan", slines, impl_of=cfg)
     # oracle pass on the real code (both configurations)
     found = []
     oracle_lines = [jline({"op": "c17_board", "s": s, "e": e, "g": g}) for (s, e, g) in bds]
     scan_or = [jline({"op": "c17_scan", "pat": p, "s": a, "e": b, "m": m}) for (p, a, b, m) in sc]
+    for j, (p, a, b, m) in enumerate(sc):
+        if j % (5 if tier == "quick" else 3) == 0 and b <= len(p) - 2:
+            so, eo = offs[(j // 5) % len(offs)]
+            if not (a == b and so > eo):
+                scan_or.append(jline({"op": "c17_scan", "pat": p, "s": a, "e": b, "m": m, "so": so, "eo": eo}))
     nontrivial = set()
     for cfgname in ("native", "pure"):
         outs = chk.impl.run(oracle_lines + scan_or, config=cfgname)
@@ -96,7 +109,7 @@ def run(chk):
         chk.cov["evaluations"] += len(outs)
     chk.cov["distinct_nontrivial"] = len(nontrivial) + len(set(bds))
     chk.cov["rule"] = ("boards: resolutions x sizes x end offsets x starts, all indices in [-3,size+3] (+/-1 s instants), "
-                       "py=pure fallback, cy=rebuilt extension; scans: all bit patterns up to the tier's length x windows x "
+                       "py=pure fallback, cy=rebuilt extension; scans: all bit patterns up to the tier's length x windows (a fifth of them with ends inside slots) x "
                        "m in 1..3; non-trivial = distinct boards + distinct scans whose expected result is non-empty")
     chk.cov["exhaustive"] = False
     chk.assumptions += ["double division == exact truncation for |diff| < 2^53/res", "C int guard for compiled variants",
